@@ -725,6 +725,16 @@ pub fn run(args: &Args) -> i32 {
          (b) hostile packets (random, mutated/spliced real packets, header/compression games, well-formed packets with hostile TXT) -> own parser must not panic. \
          non-trivial = round-trip case with >= 1 address that must decode, or hostile packet the own parser accepts as a DNS message; distinct by input hash",
     );
+    // `--packet <hex>`: replay one packet through the crate's parser and print what happens
+    if let Some(hexs) = args.extra.get("packet") {
+        let bytes = vmon::unhex(hexs);
+        let from = SocketAddr::new(IpAddr::V4(Ipv4Addr::new(10, 1, 2, 3)), 5353);
+        match catch(|| parse_packet(&bytes, from)) {
+            Ok(r) => println!("REPLAY {} bytes -> {r:?}", bytes.len()),
+            Err(p) => println!("REPLAY {} bytes -> PANIC at {}: {}", bytes.len(), p.location, p.msg),
+        }
+        return 0;
+    }
     let tiny = args.extra.get("budget").map(|s| s == "tiny").unwrap_or(false);
     let n_rt = if tiny { 30 } else { args.tier.pick(6_000u64, 400_000) };
     let from = SocketAddr::new(IpAddr::V4(Ipv4Addr::new(10, 1, 2, 3)), 5353);
